@@ -517,6 +517,7 @@ _ROUND11 = {
     "C03": "; the same lines fed through add_globs (scoped and global) as further construction routes; additions after finish() leave every verdict as it was",
     "C07": "; sync and async error handlers; Control::NextEnding sent through the public Job::control (normal priority)",
     "C09": "; sync and async error handlers; Control::NextEnding sent through the public Job::control (normal priority)",
+    "C08": "; CLI: one scenario in five keeps watchexec's standard input open and passes --stdin-quit; the shutdown is then requested by closing that input (a third trigger besides SIGINT / SIGTERM) or by a signal while the input stays open",
     "C10": "; Control::NextEnding sent through the public Job::control travels at normal priority and is part of the bounded-exhaustive alphabet",
     "C11": "; patterns given more than once, in particular P, !P, P (the later copy counts again), and the monotonicity law with a pattern that is already present",
     "C12": "; a negated explicit --ignore pattern that re-includes a file matched by a built-in default pattern (passes under all 64 combinations)",
